@@ -401,7 +401,7 @@ def unit_split(sess, ctx):
                     continue
                 x = k.get(key)
                 okf = okf and isinstance(x, Absentable) and x.present.eq(p) and x.value is v
-            eng.prove("C09:split:all-other-keywords-forwarded-untouched", okf, props=("C09",))
+            eng.prove("C09:split:all-other-keywords-forwarded-untouched", okf, props=("C09", "C08", "C05"))
             eng.prove("C09:split:no-record-no-hop", "record" not in k and "hop_dur" not in k, props=("C09", "C10"))
         # ---- validator
         tk = [x for x in log if x[0] == "StreamTokenizer"]
